@@ -32,11 +32,12 @@ package resource
 //@
 //@ func mergeChanges(a, b) (c, send)
 //@   requires a.Id == b.Id && realKind(a.ChangeType) && realKind(b.ChangeType)
-//@   ensures [fold] forall has bool, val proto.Message :: consistent(has, val, a) && consistent(hasAfter(a), a.NewValue, b) ==>
+//@   ensures [fold@C09+C08] forall has bool, val proto.Message :: consistent(has, val, a) && consistent(hasAfter(a), a.NewValue, b) ==>
 //@   |   (send ==> consistent(has, val, c) && hasAfter(c) == hasAfter(b) && (hasAfter(b) ==> c.NewValue == b.NewValue)) &&
 //@   |   (!send ==> !has && !hasAfter(b))
 //@   ensures [cancel] !send == (a.ChangeType == types.ChangeType_ADD && b.ChangeType == types.ChangeType_REMOVE)
-//@   ensures [oldchain] send && c.ChangeType != types.ChangeType_ADD ==> c.OldValue == a.OldValue
+//@   // (C08 too: include decides on OldValue/NewValue of the merged event, so a wrong old value hides a REMOVE from a filtered subscriber)
+//@   ensures [oldchain@C09+C08] send && c.ChangeType != types.ChangeType_ADD ==> c.OldValue == a.OldValue
 //@   ensures [addold] send && c.ChangeType == types.ChangeType_ADD && a.ChangeType == types.ChangeType_ADD && b.ChangeType != types.ChangeType_ADD ==> c.OldValue == nil
 //@   ensures [replace] a.ChangeType == types.ChangeType_REMOVE && b.ChangeType == types.ChangeType_ADD ==> send && c.ChangeType == types.ChangeType_REPLACE
 //@   ensures [kind] send ==> realKind(c.ChangeType)
@@ -431,8 +432,8 @@ package resource
 //@   ensures [type] err == nil ==> sametype(res, msg)
 //@   // C02: a commit installs a NEW item and never edits an existing one: Delete's re-check under the lock compares item
 //@   // pointers, so a version it did not see must not hide behind the pointer it saw
-//@   ensures [new-item] err == nil ==> fresh(recv.byId[key])
-//@   ensures [items-immutable] forall p *item :: allocated(p) ==> p.body == old(p.body) && p.changeTime == old(p.changeTime)
+//@   ensures [new-item@C01+C02+C07+C11] err == nil ==> fresh(recv.byId[key])
+//@   ensures [items-immutable@C01+C02+C07+C11] forall p *item :: allocated(p) ==> p.body == old(p.body) && p.changeTime == old(p.changeTime)
 //@   // exactly one event, describing the transition
 //@   ensures [one-event@C01+C04] err == nil ==> calls(Send) == old(calls(Send)) + 1
 //@   ensures [event@C01+C04] err == nil ==> istype(lastarg(Send, 2), *CollectionChange) && ev.Id == key &&
